@@ -8,7 +8,8 @@
   (checked after every operation by harness/h_tree.c ⇄ Driver/Tree.lean).
 
       Tree_Set          ↦ insAt / Tree.set          Tree_Set_Fix   ↦ setFix
-      Tree_Rem          ↦ remAt / Tree.rem          Tree_Rem_Fix   ↦ remFix (remCase2, remFixBody)
+      Tree_Rem          ↦ remAt, remHere, spliceOut / Tree.rem
+      Tree_Rem_Fix      ↦ remFix (one round = remCase2, remFixBody, remCase5, remCase6)
       Tree_Get/Tree_Mem ↦ find / Tree.get / mem     Tree_Maximum   ↦ maxLoc
       Tree_Len          ↦ Tree.len                  Tree_Clear / Tree_Resize ↦ Tree.clear / Tree.resize
       Tree_Assign, copy ↦ Tree.assign / Tree.copy   Tree_New (with initial pairs) ↦ Tree.new
